@@ -94,6 +94,8 @@ def flat_real(res):
         out.append(STATE_NUM.get(c["state_after"], -1))
         out += [1 if 0 in c["txn_partitions"] else 0, 1 if 1 in c["txn_partitions"] else 0,
                 1 if c["group_added"] else 0]
+        se = c.get("stored_error")
+        out.append(exn_num(se[0], se[1]) if se else 0)
         futs = c.get("futs") or {}
         for q in ("0", "1"):
             fu = futs.get(q)
@@ -182,6 +184,11 @@ def cluster_view(c):
     return (json.dumps(c["coord"], sort_keys=True), tuple(c["log_sizes"]))
 
 
+def client_view(c):
+    """The producer's own transactional state after the call, including the error kept for commit."""
+    return (c["state_after"], tuple(c["txn_partitions"]), c["group_added"], json.dumps(c.get("stored_error")))
+
+
 def monitor(ck, prog, res, stats):
     """The property, on the real results and the simulated cluster, without the model."""
     ref = "ready"
@@ -214,7 +221,7 @@ def monitor(ck, prog, res, stats):
                              {"program": to_payload(0, prog), "call_index": i, "what": what,
                               "calls": [{k: v for k, v in x.items() if k in (
                                   "call", "result", "exc", "phase", "requests", "late_requests", "state_before",
-                                  "state_after", "coord", "log_sizes", "faulted")} for x in res["calls"]]},
+                                  "state_after", "coord", "log_sizes", "faulted", "futs", "stored_error")} for x in res["calls"]]},
                              signature=key)
         if unspecified:
             return
@@ -274,6 +281,9 @@ def monitor(ck, prog, res, stats):
             if prev_view is not None and view != prev_view and not pend:
                 viol(f"call {name} out of protocol order (state {ref}) changed the cluster",
                      "illegal-call-has-effect")
+            if i > 0 and not pend and client_view(c) != client_view(res["calls"][i - 1]):
+                viol(f"call {name} out of protocol order (state {ref}) changed the producer's transactional state: "
+                     f"{client_view(res['calls'][i - 1])} -> {client_view(c)}", "illegal-call-has-effect")
             prev_view = view
             continue
         stats["legal_calls"] = stats.get("legal_calls", 0) + 1
